@@ -543,7 +543,7 @@ fn dfa_families(kind: DKind, tier: Tier) -> Vec<(usize, usize, Vec<usize>)> {
     }
 }
 
-const CODES_PER_BATCH: u64 = 16384;
+const CODES_PER_BATCH: u64 = 1024;
 
 fn ncodes(n: usize, k: usize) -> u64 {
     (n as u64).pow((n * k) as u32)
@@ -645,6 +645,10 @@ impl Engine for DfaEngine {
     }
     fn hang_is_violation(&self, _p: &str) -> bool {
         self.kind == DKind::C04
+    }
+    fn max_group(&self, _ctx: &Ctx, _batch: usize) -> usize {
+        // a batch is up to 1024 transition tables x all final sets x shapes
+        4
     }
 }
 
